@@ -20,6 +20,20 @@ def claim(pid, text, note, technique, ref):
     CLAIMED[pid] = (text, note, technique, ref)
 
 
+claim("C01",
+      "Lean theorems: (i) over the greedy fill / sentence fold and a SPEC of CommonMark block starts (interruptsPara, "
+      "validated against Marko and markdown-it-py): NH_handled (an escaped head word never starts a list, heading, quote, "
+      "rule, setext underline or fence), NH_classify, NH_fill, with machine-checked counter-witnesses NH_false / "
+      "NH_sentence_false for the uncovered cases; (ii) on a Lean model of the whole MarkdownNormalizer renderer (tied by "
+      "equality on the Marko ASTs of ~300 documents per run, symbolic line wrapper): FRAME (every block hands back "
+      "_second_prefix and _current_list_tight, by mutual functional induction). End-to-end: the canonical Marko AST of "
+      "fmt(x) equals that of x over a structured generator × widths × both modes, with counterfactual attribution of "
+      "failures to KNOWN_FINDINGS.",
+      COMMON_NOTE + "Marko's parser (and inline parsing invariance under re-wrapping) is a parameter, covered only by the "
+      "end-to-end reading oracle. Prefix discipline of rendered LINES (PD) and a round-trip reader (RT) are not yet theorems.",
+      "Lean 4 proof (escape sufficiency vs a CommonMark block-start SPEC; renderer state invariants by functional induction) "
+      "+ render-model correspondence + AST-equivalence oracle",
+      "DESIGN.md §7 C01")
 claim("C05",
       "Lean theorems for all word lists/widths/columns (LOSSLESS as a line partition with escapes only at wrapped line "
       "heads, NONEMPTY, BOUND from true columns, MAXIMAL, NOWRAP) about an exact model of wrap_paragraph_lines / "
